@@ -2814,9 +2814,9 @@ impl<'a> Visitor<'a, '_, Error> for JSONValidator<'a> {
           }
         } else if let Some(kind) = ident_numeric_kind(self.state.cddl, ident) {
           let matches_kind = match kind {
-            NumericKind::Int => n.is_i64(),
+            NumericKind::Int => n.is_i64() || n.is_u64(),
             NumericKind::Float => n.is_f64(),
-            NumericKind::Both => n.is_i64() || n.is_f64(),
+            NumericKind::Both => n.is_i64() || n.is_u64() || n.is_f64(),
           };
           if matches_kind {
             return Ok(());
